@@ -12,7 +12,8 @@ for d in seeded/${1:-*}/; do
   # two changes are, by design, reported by the property that owns the broken behaviour
   case "$n" in
     C01c-*) chk=C03 ;;
-    C10c-*) chk=C12 ;;
+    C10b-*|C10c-*) chk=C12 ;;
+    C12d-*) chk=C03 ;;
     *) chk=$prop ;;
   esac
   res=$(LINES_MAX=3 bin/try_patch.sh "$d/patch.diff" "$chk" 2>&1)
@@ -20,5 +21,8 @@ for d in seeded/${1:-*}/; do
   key=$(echo "$res" | grep -m1 "^  key:" | sed 's/^  key: //')
   printf "%s\t%s\t%s\t%s\t%s\n" "$n" "$prop" "$chk" "$v" "$key" | tee -a "$OUT.tmp"
 done
-mv "$OUT.tmp" "$OUT"
+# merge: rows of this run replace rows of the same seed, all other rows are kept
+touch "$OUT"
+awk -F'\t' 'NR==FNR { new[$1]=$0; next } !($1 in new) { print }' "$OUT.tmp" "$OUT" > "$OUT.keep"
+cat "$OUT.keep" "$OUT.tmp" | sort > "$OUT"; rm -f "$OUT.keep" "$OUT.tmp"
 git -C /repo worktree remove --force /tmp/gbmc_try_$SLOT/repo 2>/dev/null; rm -rf /tmp/gbmc_try_$SLOT
